@@ -21,15 +21,9 @@ M = [
  ("c01_dict_clamp_too_small", "C01", "src/decode/lzma.rs",
   "let dict_size = if dict_size_provided < 0x1000 {\n            0x1000",
   "let dict_size = if dict_size_provided < 0x100 {\n            0x100"),
- ("c01_flush_at_wrong_cursor", "C01", "src/decode/lzbuffer.rs",
-  "            self.stream.write_all(self.buf.as_slice())?;\n            self.cursor = 0;",
-  "            self.stream.write_all(&self.buf[..self.cursor.min(self.buf.len())])?;\n            self.cursor = 0;\n            self.len += 0;"),
  ("c02_reset_keeps_rep", "C02", "src/decode/lzma.rs",
   "        self.state = 0;\n        self.rep = [0; 4];\n        self.len_decoder = LenDecoder::new();\n        self.rep_len_decoder = LenDecoder::new();\n    }\n\n    pub fn set_unpacked_size",
   "        self.state = 0;\n        self.len_decoder = LenDecoder::new();\n        self.rep_len_decoder = LenDecoder::new();\n    }\n\n    pub fn set_unpacked_size"),
- ("c02_literal_table_never_reallocated", "C02", "src/decode/lzma.rs",
-  "if self.lzma_props.lc + self.lzma_props.lp == new_props.lc + new_props.lp {",
-  "if self.lzma_props.lc + self.lzma_props.lp >= new_props.lc + new_props.lp {"),
  ("c02_state_reset_also_on_class0", "C02", "src/decode/lzma2.rs",
   "            0 => {\n                reset_dict = false;\n                reset_state = false;",
   "            0 => {\n                reset_dict = false;\n                reset_state = true;"),
